@@ -81,11 +81,13 @@ type linState struct {
 	val     string
 	ver     string
 	unbound bool
+	short   bool   // the record carries a short expiry: gone at the next tick
 	used    string // sorted, comma separated versions already used for this key
 }
 
 type linIn struct {
 	kind, key, val, ver string
+	short               bool
 }
 
 func usedHas(used, v string) bool {
@@ -108,8 +110,24 @@ func usedAdd(used, v string) string {
 }
 
 func linStep(st linState, in linIn, out outcome) (bool, linState) {
+	ok, ns := linStep1(st, in, out)
+	if ok && ns.present && (in.kind == "put" || in.kind == "putmany" || (out.Err == "ok" && (in.kind == "create" || in.kind == "cas"))) {
+		ns.short = in.short
+	}
+	if !ns.present {
+		ns.short = false
+	}
+	return ok, ns
+}
+
+func linStep1(st linState, in linIn, out outcome) (bool, linState) {
 	freshOK := func(v string) bool { return v != "" && !usedHas(st.used, v) }
 	switch in.kind {
+	case "tick":
+		if st.present && st.short {
+			return true, linState{used: st.used}
+		}
+		return true, st
 	case "create":
 		switch out.Err {
 		case "ok":
@@ -213,6 +231,46 @@ var linModel = porcupine.Model{
 	},
 }
 
+// linMaybe: the states after a write whose outcome nobody knows (its connection broke).
+func linMaybe(st linState, in linIn) []interface{} {
+	res := []interface{}{st}
+	applied := linState{present: true, val: in.val, unbound: true, short: in.short, used: st.used}
+	switch in.kind {
+	case "put", "putmany":
+		res = append(res, applied)
+	case "create":
+		if !st.present {
+			res = append(res, applied)
+		}
+	case "cas":
+		if st.present && (st.unbound || st.ver == in.ver) {
+			res = append(res, applied)
+		}
+	case "del":
+		if st.present {
+			res = append(res, linState{used: st.used})
+		}
+	}
+	return res
+}
+
+// linNDModel is linModel plus writes of unknown outcome.
+var linNDModel = porcupine.NondeterministicModel{
+	Init: func() []interface{} { return []interface{}{linState{}} },
+	Step: func(state, input, output interface{}) []interface{} {
+		st, in, out := state.(linState), input.(linIn), output.(outcome)
+		if out.Err == "maybe" {
+			return linMaybe(st, in)
+		}
+		if ok, ns := linStep(st, in, out); ok {
+			return []interface{}{ns}
+		}
+		return nil
+	},
+	Equal:             func(a, b interface{}) bool { return a.(linState) == b.(linState) },
+	DescribeOperation: linModel.DescribeOperation,
+}
+
 // Post runs after the bubble has ended (real clock again).
 func (w *world) Post(res *sim.Result) {
 	if w.mode != "conc" || len(res.Violations) > 0 || res.HarnessError != "" || res.Inconclusive != "" {
@@ -225,7 +283,7 @@ func (w *world) Post(res *sim.Result) {
 		}
 		out := h.Out
 		out.Many, out.Keys, out.Exp = nil, nil, nil
-		byKey[h.Key] = append(byKey[h.Key], porcupine.Operation{ClientId: h.Client, Input: linIn{h.Kind, h.Key, h.Val, h.Ver}, Call: h.Call, Output: out, Return: h.Ret})
+		byKey[h.Key] = append(byKey[h.Key], porcupine.Operation{ClientId: h.Client, Input: linIn{h.Kind, h.Key, h.Val, h.Ver, h.Short}, Call: h.Call, Output: out, Return: h.Ret})
 	}
 	keys := make([]string, 0, len(byKey))
 	for k := range byKey {
@@ -237,9 +295,22 @@ func (w *world) Post(res *sim.Result) {
 			continue
 		}
 		ops := byKey[k]
+		for _, tk := range w.ticks {
+			ops = append(ops, porcupine.Operation{ClientId: 1000, Input: linIn{kind: "tick", key: k}, Call: tk[0], Output: outcome{Err: "ok"}, Return: tk[1]})
+		}
 		model := linModel
 		if init, ok := w.initState[k]; ok {
 			model.Init = func() interface{} { return init }
+		}
+		for _, o := range ops {
+			if o.Output.(outcome).Err == "maybe" {
+				nd := linNDModel
+				if init, ok := w.initState[k]; ok {
+					nd.Init = func() []interface{} { return []interface{}{init} }
+				}
+				model = nd.ToModel()
+				break
+			}
 		}
 		r := porcupine.CheckOperationsTimeout(model, ops, 20*time.Second)
 		switch r {
